@@ -16,9 +16,12 @@ def main(n, tier):
                 for k in list(f['meta'])[:3]:
                     if k not in ('EchoTime', 'FlipAngle', 'InstanceNumber'):
                         f['meta'].pop(k)
-        st, _ = G.new_stack(series)
-        nii = CS.quiet(st.to_nifti, 'LAS', True)
-        out.append(CS.nii_digest(nii))
+        try:
+            st, _ = G.new_stack(series)
+            nii = CS.quiet(st.to_nifti, 'LAS', True)
+            out.append(CS.nii_digest(nii))
+        except Exception as e:
+            out.append('RAISED %r' % (e,))
     print(json.dumps(out))
 
 
